@@ -129,3 +129,12 @@ def c19mup : Drv where
     | _ => (s, "bad-op")
 
 end Ldk.Driver
+
+namespace Ldk.Driver
+/-- `c19mt` (8-thread stress of the filesystem stores) has no model side: the harness alone checks it
+    (validated, not proved) and emits no op lines. -/
+def c19mt : Drv where
+  σ := Unit
+  init := ()
+  step := fun _ _ => ((), "bad-op")
+end Ldk.Driver
